@@ -114,6 +114,9 @@ def gen_cases(rng, tier):
     n = 260 if tier == "quick" else 3000
     for _ in range(n):
         dnames = ["dm", "dGamma", "qoverp", "myVal_1", "x.y"][:rng.randint(0, 5)]
+        if rng.random() < 0.25:
+            # names (and undefined words) that float() would accept: they are names / words all the same
+            dnames = dnames + rng.sample(["inf", "nan", "Infinity", "NaN", "INF"], rng.randint(1, 2))
         anames = ["MA", "MyVSS", "Alias-2", "MODELX"][:rng.randint(0, 4)]
         pre = []
         for d in dnames:
@@ -130,7 +133,7 @@ def gen_cases(rng, tier):
                     # "-NAME" is the negated value; "+NAME" is just a word (it is not a defined name)
                     prm.append(["word", ("-" if rng.random() < 0.3 else ("+" if rng.random() < 0.15 else "")) + nme])
                 else:
-                    prm.append(["word", rng.choice(["file.dat", "yes", "-foo", "w1"])])
+                    prm.append(["word", rng.choice(["file.dat", "yes", "-foo", "w1", "nan", "-inf", "infinity"])])
             return prm or None
         for a in anames:
             for _ in range(rng.choice([1, 1, 2])):
